@@ -282,7 +282,7 @@ def run(ctx):
         sets = {}
         for role, fname in fnames.items():
             fn = prog.fn(fname, evfile)
-            for rank in (-1, 7):
+            for rank in (-1, 0, 7):
                 chans = {}
 
                 def s_cs(ex_, st, args, f, e, chans=chans):
@@ -321,7 +321,8 @@ def run(ctx):
         enums = _m.file_enumerators(prog, "src/emu/%s/" % model)
         idx_of = {nm: enums[en] for nm, en in cs_names.items()}
         want_val = {"taskid": INT(501), "task_type": INT(502), "bodyid": INT(503), "appid": INT(504), "rank": INT(8)}
-        for rank in (-1, 7):
+        for rank in (-1, 0, 7):
+            want_val["rank"] = INT(rank + 1)
             expected = {idx_of[nm] for nm in cs_names if not (nm == "rank" and rank < 0)}
             for role in fnames:
                 got = sets[(role, rank)]
